@@ -1547,6 +1547,11 @@ pub fn gen_module(rng: &mut Rng, cfg: &GenCfg) -> Generated {
                 _ => groups.push((1, t.enc())),
             }
         }
+        // an empty group `0 x t` declares nothing and is valid; tools emit them now and then
+        if rng.chance(1, 8) {
+            let at = rng.below(groups.len() as u64 + 1) as usize;
+            groups.insert(at, (0, rng.pick(&vts).enc()));
+        }
         let mut func = Function::new(groups);
         for i in &f.out {
             func.instruction(i);
